@@ -9,7 +9,7 @@ ID = "C15"
 RULE = ("Mode G: EVERY validated model of the plog families (explicit and generated ids, integer leaves, connective structures) x a fixed "
         "alphabet of objective dictionaries (empty, single, mixed signs, a sub-proposition id, an unknown id) and EVERY configurator of the "
         "C14 space x the priority alphabet, each x the environment answers of the solver callable {exact optimum by brute force, tagged "
-        "vector 10+j, None, raises} (non-default answers are the deviations) x include_virtual_variables / only_leafs. oracle: callable gets "
+        "vector 10+j, None, raises} (non-default answers are the deviations) x include_virtual_variables x try_reduce_before (solve) / only_leafs (select). oracle: callable gets "
         "the asserted polyhedron (equal to a separately built one) and one objective per request with entry j = weight of column j's id "
         "(solve) resp. shadow compression of [default_prio_vector; u] with u built by id (select); reported dictionaries map every column "
         "id to the value at that column minus generated helpers / non-leafs; exact answers are optimal over the brute-force feasible set "
@@ -23,7 +23,7 @@ BOUNDS = {"quick": "solve: abc explicit, ab generated / VAR-named, at explicit, 
           "thorough": "solve: + abt, abct, diamonds, conn2/abc generated; select: + 3-rule configurators"}
 OBJECTIVES = [{}, {"a": 1}, {"a": -1, "b": 2}, {"a": 1, "b": 1, "c": 1, "t": 1}, {"a": -1, "b": -1, "c": -1, "t": -2}, {"B": 3, "a": -1},
               {"nope": 4}, {"c": 2, "t": -1, "A": 1}]
-QUICK = ["abc/explicit", "ab/generated", "ab/varnamed", "at/explicit", "conn2/ab/generated"]
+QUICK = ["abc/explicit", "ab/generated", "ab/varnamed", "at/explicit", "conn2/ab/generated", "d3/ab/explicit", "d3/ab/generated"]
 THOROUGH = QUICK + ["abc/generated", "abt/explicit", "abct/explicit", "diamond/explicit", "diamond/generated", "conn2/abc/generated"]
 
 
@@ -57,31 +57,65 @@ def check_solve(m, fam, k, acc):
         if is_var(obj) or obj.errors():
             acc.n("skipped_invalid")
             return
-        Pref = obj.to_ge_polyhedron(active=True)
+        Pplain = obj.to_ge_polyhedron(active=True)
+        Pred = obj.to_ge_polyhedron(active=True, reduced=True)
     except BaseException as e:
         acc.violation(None, case, {"what": "construction raised", "exc": repr(e), "model": show(m)})
         return
-    cols = list(Pref.A.variables)
-    ids = [v.id for v in cols]
-    if len(ids) > 12:
+    if Pplain.A.shape[1] > 12:
         acc.n("skipped_too_many_columns")
         return
     acc.n("models")
     acc.state(m)
-    helper = {v.id for v in cols if (not is_var(v)) and v.generated_id}
     leaves = leaves_of(m)
+    safe = solver_safe_obj(obj)
+    shrinks = Pred.A.shape[1] < Pplain.A.shape[1]
+    acc.hist("try_reduce_before_drops_columns", shrinks)
+    # try_reduce_before=True hands the solver the REDUCED asserted polyhedron (fewer helper columns for nested models): every clause is
+    # then about that polyhedron's columns. Explored for every model whose reduced polyhedron differs, and for every fourth other model.
+    for red in ((False, True) if (shrinks or not same_polyhedron(Pplain, Pred) or k % 4 == 0) else (False,)):
+        check_solve_flags(m, case, obj, Pred if red else Pplain, red, leaves, safe, acc, Pplain)
+    if k % 2500 == 0:
+        acc.sample({"model": show(m), "columns": [str(v.id) for v in Pplain.A.variables], "objectives": OBJECTIVES[:3],
+                    "columns_with_try_reduce_before": [str(v.id) for v in Pred.A.variables]})
+
+
+def classify_unsat(m, red, leaves, alpha, Pplain):
+    """Model of known finding D12 (root cause in the compiled dependency puan_rspy): with try_reduce_before=True the REDUCED polyhedron
+    that puan_rspy returns merges a conjunction of compounds into one row whose big-M ignores negative lower bounds, so it admits points
+    that are no models. The signature applies only if: the call asked for the reduction, the model has a leaf with a negative lower bound,
+    and the plain (unreduced) polyhedron of the same model does exclude the reported point - i.e. everything on the Python side (columns,
+    ids, alignment, feasibility for the polyhedron handed over: all checked before this point) is right."""
+    if not red or not any(lo < 0 for lo, hi in leaves.values()):
+        return None
+    ids = [v.id for v in Pplain.A.variables]
+    pts, feas = cfgspace.feasible_points(Pplain)
+    F = pts[feas]
+    cols = [ids.index(i) for i in leaves]
+    want = np.array([alpha[i] for i in leaves], dtype=np.int64)
+    if len(F) and (F[:, cols] == want).all(axis=1).any():
+        return None
+    return "D12:try_reduce_before-reduced-polyhedron-admits-non-models-negative-lower-bound"
+
+
+def check_solve_flags(m, case, obj, Pref, red, leaves, safe, acc, Pplain):
+    cols = list(Pref.A.variables)
+    ids = [v.id for v in cols]
+    helper = {v.id for v in cols if (not is_var(v)) and v.generated_id}
     pts, feas = cfgspace.feasible_points(Pref)
     F = pts[feas]
-    safe = solver_safe_obj(obj)
     for mode in ("exact", "tag", "none"):
         for virt in (False, True):
             cap = cfgspace.Capture(mode)
             o2, _ = bind(m)
-            cs = dict(case, mode=mode, virtual=virt)
+            cs = dict(case, mode=mode, virtual=virt, try_reduce_before=red)
             acc.n("traces")
             acc.n("transitions")
             try:
-                res = list(o2.solve([dict(o) for o in OBJECTIVES], solver=cap, include_virtual_variables=virt))
+                if red:
+                    res = list(o2.solve([dict(o) for o in OBJECTIVES], solver=cap, include_virtual_variables=virt, try_reduce_before=True))
+                else:
+                    res = list(o2.solve([dict(o) for o in OBJECTIVES], solver=cap, include_virtual_variables=virt))
             except BaseException as e:
                 acc.violation(None, cs, {"what": "solve raised", "exc": repr(e), "model": show(m)})
                 continue
@@ -106,7 +140,7 @@ def check_solve(m, fam, k, acc):
                     bad = True
                     break
                 sol = r[0]
-                acc.obs(mode, virt, oi, sorted((str(a), int(b)) for a, b in sol.items()))
+                acc.obs(mode, virt, red, oi, sorted((str(a), int(b)) for a, b in sol.items()))
                 if mode == "none":
                     if sol != {}:
                         acc.violation(None, dict(cs, oi=oi), {"what": "None solution did not become an empty result", "got": repr(sol)})
@@ -143,19 +177,19 @@ def check_solve(m, fam, k, acc):
                                                               "solution": {str(a): int(b) for a, b in sol.items()}, "best": best})
                         bad = True
                         break
-                if safe:
+                if safe and all(i in sol for i in leaves):
                     alpha = {i: int(sol[i]) for i in leaves}
                     t = ref.truth(m, alpha) if m[0] == 'N' else ref.connective(m, alpha)
                     if t != 1:
-                        acc.violation(None, dict(cs, oi=oi), {"what": "solver-safe model: reported solution does not satisfy the model", "model": show(m), "alpha": alpha})
+                        acc.violation(classify_unsat(m, red, leaves, alpha, Pplain), dict(cs, oi=oi),
+                                      {"what": "solver-safe model: reported solution does not satisfy the model", "model": show(m), "alpha": alpha,
+                                       "polyhedron_handed_to_the_solver": np.asarray(Pref).tolist(), "columns": list(map(str, ids))})
                         bad = True
                         break
                 if len(set((F @ w).tolist())) >= 2:
-                    acc.nontriv((m, oi))
+                    acc.nontriv((m, oi, red))
             if bad:
                 continue
-    if k % 2500 == 0:
-        acc.sample({"model": show(m), "columns": list(map(str, ids)), "objectives": OBJECTIVES[:3], "feasible_points": int(len(F))})
 
 
 def check_select(k, tier, acc):
